@@ -45,8 +45,9 @@ class MapperContract:
 
     def __init__(self, name, mapper, rec, refines=None, ensures=(), self_attrs=None, classes=None,
                  exclude=(), invariant="default", extra_args=True, property_id=None, setup=None,
-                 methods=None, via_dispatch=True, known=None):
+                 methods=None, via_dispatch=True, known=None, old=None):
         self.name = name
+        self.old = old
         self.mapper = mapper
         self.rec = rec
         self.refines = refines
